@@ -50,8 +50,11 @@ def main():
     for u in units:
         try:
             metas[u] = vdriver.lower_unit(u)
-        except LoweringError as e:
-            # the groups of this unit are undecided; groups on other units (e.g. refactor-robust bounded stand-ins) still run
+        except Exception as e:
+            # a lowering error -- or an internal error of the lowering tool on code it was not written for -- leaves the groups of this
+            # unit undecided (exit 2, never a verdict); groups on other units (e.g. refactor-robust bounded stand-ins) still run
+            if not isinstance(e, LoweringError):
+                e = LoweringError(f'internal error of the lowering tool ({type(e).__name__}: {e})')
             failed_units[u] = str(e)
             print(f'UNDECIDED property={pid}: lowering of unit {u} failed: {e}')
     if failed_units and len(failed_units) == len(units):
@@ -286,4 +289,13 @@ def write_evidence(pid, tier, seed, mod, results, metas, wall, violations=(), kn
 
 
 if __name__ == '__main__':
-    sys.exit(main())
+    try:
+        rc = main()
+    except SystemExit:
+        raise
+    except BaseException as e:      # a crash of the checking machinery is never a verdict about the code
+        import traceback
+        traceback.print_exc()
+        print(f'UNDECIDED: internal error of the checking machinery ({type(e).__name__}: {e})')
+        rc = 2
+    sys.exit(rc)
